@@ -170,18 +170,21 @@ void h_register_unregister(void)
 
 /* ---- C16: fork handlers ------------------------------------------------------------------------------ */
 unsigned long in_child, in_alloc, in_tids;
+#define NF 3
+/* the list SHAPE is concrete (slots 0..NF-2 allocated and registered, slot NF-1 free); the owners are arbitrary */
+#define FORK_ALLOC(k) ((k) < NF - 1)
 void h_fork(void)
 {
-	struct registry_chunk *c0; unsigned long k, me;
+	struct registry_chunk *c0; unsigned long k, me, kept = 0, n = 0; struct cds_list_head *p;
 	VIN(unsigned long, in_child); VIN(unsigned long, in_alloc); VIN(unsigned long, in_tids);
 	CDS_INIT_LIST_HEAD(&registry_arena.chunk_list); CDS_INIT_LIST_HEAD(&registry);
 	expand_arena(&registry_arena); c0 = CHUNK0;
 	me = (unsigned long) pthread_self();
-	for (k = 0; k < 4; k++) {			/* four slots with arbitrary occupancy and owners */
+	for (k = 0; k < NF; k++) {			/* NF slots with arbitrary occupancy and owners */
 		struct urcu_bp_reader *r = &c0->readers[k];
-		r->alloc = (in_alloc >> k) & 1;
+		r->alloc = FORK_ALLOC(k);
 		r->tid = ((in_tids >> k) & 1) ? (pthread_t) me : (pthread_t) (1000 + k);
-		r->ctr = r->alloc ? 0x10001 : 0;
+		r->ctr = r->alloc ? 0x10001 : 0;		/* inside a read-side critical section at fork time */
 		if (r->alloc) { cds_list_add(&r->node, &registry); c0->used++; }
 	}
 	G_os_sig_blocked = 0x80;
@@ -189,17 +192,25 @@ void h_fork(void)
 	VERIF_ASSERT(G_os_sig_blocked == ~0UL && OS_HELD(&rcu_gp_lock) == 1 && OS_HELD(&rcu_registry_lock) == 1, "bp before_fork: all signals blocked, gp lock then registry lock held across fork()");
 	if (in_child & 1) {
 		urcu_bp_after_fork_child();
-		for (k = 0; k < 4; k++) {
+		for (k = 0; k < NF; k++) {
 			struct urcu_bp_reader *r = &c0->readers[k];
-			int was = (in_alloc >> k) & 1, mine = (in_tids >> k) & 1;
+			int was = FORK_ALLOC(k), mine = (in_tids >> k) & 1;
 			VERIF_ASSERT(r->alloc == (was && mine), "bp after_fork_child: every slot of a thread that does not exist in the child is released; the forking thread keeps its own");
-			VERIF_ASSERT((was && mine) || r->ctr == 0, "bp after_fork_child: reader words of vanished threads are cleared (they cannot block grace periods in the child)");
+			VERIF_ASSERT((was && mine) ? r->ctr == 0x10001 : r->ctr == 0, "bp after_fork_child: reader words of vanished threads are cleared (they cannot block grace periods in the child); the forking thread's word is kept");
+			if (was && mine) kept++;
 		}
+		VERIF_ASSERT(c0->used == kept, "bp after_fork_child: usage count matches the surviving slots");
+		for (p = registry.next; p != &registry && n <= NF; p = p->next) {
+			struct urcu_bp_reader *r = cds_list_entry(p, struct urcu_bp_reader, node);
+			VERIF_ASSERT(r->alloc == 1 && r->tid == (pthread_t) me, "bp after_fork_child: the child's registry lists only the forking thread");
+			n++;
+		}
+		VERIF_ASSERT(n == kept, "bp after_fork_child: registry = exactly the surviving slots, each once");
 	} else {
 		urcu_bp_after_fork_parent();
-		for (k = 0; k < 4; k++) VERIF_ASSERT(c0->readers[k].alloc == (int) ((in_alloc >> k) & 1), "bp after_fork_parent: registry untouched");
+		for (k = 0; k < NF; k++) VERIF_ASSERT(c0->readers[k].alloc == (int) FORK_ALLOC(k) && c0->readers[k].ctr == (c0->readers[k].alloc ? 0x10001UL : 0UL), "bp after_fork_parent: registry untouched");
 	}
 	VERIF_ASSERT(G_os_locks_held == 0 && OS_HELD(&rcu_gp_lock) == 0 && OS_HELD(&rcu_registry_lock) == 0, "bp fork handlers: nothing left locked in either process");
 	VERIF_ASSERT(G_os_sig_blocked == 0x80, "bp fork handlers: the signal mask from before the fork is restored in either process");
-	VERIF_COVER((in_child & 1) && (in_alloc & 15) == 15 && (in_tids & 15) == 4); VERIF_COVER(!(in_child & 1));
+	VERIF_COVER((in_child & 1) && (in_tids & 3) == 2); VERIF_COVER(!(in_child & 1)); VERIF_COVER((in_child & 1) && (in_tids & 3) == 0); VERIF_COVER((in_child & 1) && (in_tids & 3) == 3);
 }
